@@ -17,10 +17,30 @@ use crate::pool::Pool;
 
 /// Runs one generated program on both sides. Returns (class, nontrivial, Option<(sig suffix, summary, text)>).
 pub fn differential(prog: &Prog, stdin: &[u8], tag: &str) -> (String, bool, Option<(String, String, String)>) {
+    let opts = RunOpts { stdin: stdin.to_vec(), budget: 400_000, ..RunOpts::default() };
+    let (a, b, c, _) = differential_opts(prog, stdin, tag, &opts);
+    (a, b, c)
+}
+
+pub fn differential_opts(
+    prog: &Prog,
+    stdin: &[u8],
+    tag: &str,
+    opts: &RunOpts,
+) -> (String, bool, Option<(String, String, String)>, vcore::Outcome) {
+    let (class, nt, bad, o) = differential_inner(prog, stdin, tag, opts);
+    (class, nt, bad, o)
+}
+
+fn differential_inner(
+    prog: &Prog,
+    stdin: &[u8],
+    tag: &str,
+    opts: &RunOpts,
+) -> (String, bool, Option<(String, String, String)>, vcore::Outcome) {
     let printed = print_default(prog);
     let r = run_reference(prog, stdin, &[]);
-    let opts = RunOpts { stdin: stdin.to_vec(), budget: 400_000, ..RunOpts::default() };
-    let o = run_pipeline(&printed.text, &opts);
+    let o = run_pipeline(&printed.text, opts);
     let mut all_executed = true;
     prog.walk(&mut |s| {
         if !r.executed.contains(&s.id) && !matches!(s.k, vcore::gast::K::Label(_) | vcore::gast::K::Comment(_) | vcore::gast::K::Data(_)) {
@@ -28,13 +48,13 @@ pub fn differential(prog: &Prog, stdin: &[u8], tag: &str) -> (String, bool, Opti
         }
     });
     if r.steps > 20_000 {
-        return ("undecided:long-running".into(), false, None);
+        return ("undecided:long-running".into(), false, None, o);
     }
     match compare(&r, &printed.pos, &o) {
-        Verdict::Agree => (format!("agree:{}", o.end.class()), all_executed, None),
+        Verdict::Agree => (format!("agree:{}", o.end.class()), all_executed, None, o),
         Verdict::Undecided(m) => {
             // the reference does not decide; an internal failure of the implementation is still C08's business
-            (format!("undecided:{}", vcore::strip_digits(&m)), false, None)
+            (format!("undecided:{}", vcore::strip_digits(&m)), false, None, o)
         }
         Verdict::Differ(class, msg) => {
             let _ = End::Normal;
@@ -42,6 +62,7 @@ pub fn differential(prog: &Prog, stdin: &[u8], tag: &str) -> (String, bool, Opti
                 "differ".into(),
                 all_executed,
                 Some((format!("{}|{}", tag, class), msg, printed.text)),
+                o,
             )
         }
     }
